@@ -154,7 +154,7 @@ def canon_model(heap):
   return rec(1)
 
 
-def canon_real(root, nnx, mods, vts, ids=None):
+def canon_real(root, nnx, mods, vts, ids=None, leaf_ids=None):
   idx = {}
   rev_m = {v: k for k, v in mods.items()}
   rev_v = {v: k for k, v in vts.items()}
@@ -167,6 +167,8 @@ def canon_real(root, nnx, mods, vts, ids=None):
       if ids is not None:
         ids.add(id(x))
       md = x.get_metadata() if hasattr(x, 'get_metadata') else {}
+      if leaf_ids is not None and isinstance(x.raw_value, np.ndarray):
+        leaf_ids.add(id(x.raw_value))
       return (rev_v.get(type(x), type(x).__name__), idx[id(x)], val_of(x.value, type(x)), 1 if md.get('tag') == 'm1' else 0)
     if isinstance(x, nnx.Module):
       if id(x) in idx:
@@ -189,6 +191,8 @@ def canon_real(root, nnx, mods, vts, ids=None):
       return ('T', tuple(rec(v) for v in x))
     if isinstance(x, str):
       return ('s',)
+    if leaf_ids is not None and isinstance(x, np.ndarray):
+      leaf_ids.add(id(x))
     return ('arr', int(np.asarray(x)))
   return rec(root)
 
@@ -359,12 +363,15 @@ def _replay(chk, h, idx, nnx, mods, vts):
     elif op == 'clone':
       key = key0 + ':clone'
       c = nnx.clone(root)
-      ids_c, ids_o = set(), set()
-      if canon_real(c, nnx, mods, vts, ids_c) != canon_model(heap):
+      ids_c, ids_o, leaves_c, leaves_o = set(), set(), set(), set()
+      if canon_real(c, nnx, mods, vts, ids_c, leaves_c) != canon_model(heap):
         return key, 'clone is not isomorphic to the original'
-      canon_real(root, nnx, mods, vts, ids_o)
+      canon_real(root, nnx, mods, vts, ids_o, leaves_o)
       if ids_c & ids_o:
         return key, 'clone shares Modules / Variables with the original'
+      if leaves_c & leaves_o:
+        return key + ':numpy-leaf-shared', ('clone shares a mutable numpy array (an array attribute or the value of a Variable) with the original: '
+                                            'writing into it through the clone changes the original')
       if canon_real(root, nnx, mods, vts) != before:
         return key, 'clone modified the original'
   return None
